@@ -787,6 +787,23 @@ def _s_coercion(ctx, S):
     fpcls = ctx.cls(FPM, "FilePath")
     mod_funcs = {st.name: st for st in mod.tree.body if isinstance(st, ast.FunctionDef)}
 
+    def callees(c, fn):
+        """the private helpers a call can reach: the callee itself, or - when what is called is a local (`convert = self._a if .. else self._b; convert()`) -
+        every helper that local can stand for; [] when any alternative is not a private helper of this module / class"""
+        f_ = c.func
+        if isinstance(f_, ast.Name) and f_.id not in mod_funcs and fn is not None:
+            out = []
+            for v, _, _ in leaf_values(fn, f_):
+                if isinstance(v, ast.Name) and v.id == f_.id:
+                    return []
+                r_ = resolve_callee(ast.Call(func=v, args=[], keywords=[])) if isinstance(v, (ast.Name, ast.Attribute)) else None
+                if r_ is None:
+                    return []
+                out.append(r_)
+            return out
+        r_ = resolve_callee(c)
+        return [r_] if r_ else []
+
     def resolve_callee(c):
         f_ = c.func
         if isinstance(f_, ast.Name) and f_.id.startswith("_") and f_.id in mod_funcs:
@@ -806,8 +823,8 @@ def _s_coercion(ctx, S):
     for b in bases:
         for nm_ in [x for x in ast.walk(b) if isinstance(x, ast.Name)]:
             for v, _, _ in leaf_values(child_fn, nm_):
-                if isinstance(v, ast.Call) and resolve_callee(v):
-                    roots.append(resolve_callee(v))
+                if isinstance(v, ast.Call):
+                    roots.extend(callees(v, child_fn))
     ctx.need(roots, "the containment base of FilePath.child (<new>.startswith(<base>)) computed by a private helper")
     helpers = {q_: f_ for q_, f_ in roots}
     todo = [f_ for _, f_ in roots]
@@ -815,10 +832,10 @@ def _s_coercion(ctx, S):
         fn = todo.pop()
         for c in ast.walk(fn):
             if isinstance(c, ast.Call):
-                r = resolve_callee(c)
-                if r and r[0] not in helpers:
-                    helpers[r[0]] = r[1]
-                    todo.append(r[1])
+                for r in callees(c, fn):
+                    if r[0] not in helpers:
+                        helpers[r[0]] = r[1]
+                        todo.append(r[1])
     ctx.floor("coercion/pure-re-encoding", len(helpers), 3, "coercion helpers reached from FilePath.child")
     for qual, fn in sorted(helpers.items()):
         ps = set(params(fn)) - {"self", "encoding"}
@@ -832,7 +849,7 @@ def _s_coercion(ctx, S):
                 return None
             if isinstance(e, ast.Call) and isinstance(e.func, ast.Attribute) and e.func.attr in ("encode", "decode") and is_path(e.func.value):
                 return None
-            if isinstance(e, ast.Call) and resolve_callee(e) and resolve_callee(e)[0] in helpers:
+            if isinstance(e, ast.Call) and callees(e, fn) and all(r_[0] in helpers for r_ in callees(e, fn)):
                 pos = [a for a in e.args]
                 return next((a for a in pos if not (is_path(a) or isinstance(a, ast.Constant) or src(a) == "encoding")), None)
             return e
@@ -906,6 +923,8 @@ MUTANTS = [
     Mutant("scanner-keeps-dot-components", FTPM, '    for s in path.split("/"):\n        if s == "." or s == "":\n            continue\n        elif s == "..":\n            if segs:\n                segs.pop()\n            else:\n                raise InvalidPath(cwd, path)\n        elif "\\0" in s or "/" in s:\n            raise InvalidPath(cwd, path)\n        else:\n            segs.append(s)\n    return segs\n', '    rest = path\n    while rest is not None:\n        s, sep, tail = rest.partition("/")\n        rest = tail if sep else None\n        if s == "..":\n            if not segs:\n                raise InvalidPath(cwd, path)\n            segs.pop()\n        elif "\\0" in s:\n            raise InvalidPath(cwd, path)\n        elif s not in ("",):\n            segs.append(s)\n    return segs\n', expect_rule="normalise/evaluated"),
     Mutant("scanner-ignores-dotdot-at-the-root", FTPM, '    for s in path.split("/"):\n        if s == "." or s == "":\n            continue\n        elif s == "..":\n            if segs:\n                segs.pop()\n            else:\n                raise InvalidPath(cwd, path)\n        elif "\\0" in s or "/" in s:\n            raise InvalidPath(cwd, path)\n        else:\n            segs.append(s)\n    return segs\n', '    rest = path\n    while rest is not None:\n        s, sep, tail = rest.partition("/")\n        rest = tail if sep else None\n        if s == "..":\n            if False:\n                raise InvalidPath(cwd, path)\n            if segs:\n                segs.pop()\n        elif "\\0" in s:\n            raise InvalidPath(cwd, path)\n        elif s not in (".", ""):\n            segs.append(s)\n    return segs\n',
            expect_rule="normalise/evaluated"),
+    # ---- the coercion chosen through a local that stands for one of the helpers
+    Mutant("dispatcher-through-a-local-case-folds-the-result", FPM, '        if isinstance(pattern, bytes):\n            return self._asBytesPath()\n        else:\n            return self._asTextPath()\n', '        spelling = self._asTextPath\n        if isinstance(pattern, bytes):\n            spelling = self._asBytesPath\n        return spelling().lower()\n', expect_rule="coercion/pure-re-encoding"),
 ]
 SILENT = [
     Silent("rename-segments-variable", _F, "            newsegs = toSegments(self.workingDirectory, path)\n        except InvalidPath:\n            return defer.fail(FileNotFoundError(path))\n        return self.shell.removeFile(newsegs)",
@@ -943,4 +962,5 @@ SILENT = [
     Silent("list-over-name-node-rows", FTPM, '            entries = filePath.listdir()\n            fileEntries = [filePath.child(p) for p in entries]\n        elif filePath.isfile():\n            entries = [os.path.join(*filePath.segmentsFrom(self.filesystemRoot))]\n            fileEntries = [filePath]\n        else:\n            return defer.fail(FileNotFoundError(path))\n\n        results = []\n        for fileName, filePath in zip(entries, fileEntries):\n', '            rows = []\n            for p in filePath.listdir():\n                rows.append((p, filePath.child(p)))\n        elif filePath.isfile():\n            rows = [(os.path.join(*filePath.segmentsFrom(self.filesystemRoot)), filePath)]\n        else:\n            return defer.fail(FileNotFoundError(path))\n\n        results = []\n        for fileName, filePath in rows:\n'),
     Silent("descendant-as-a-fold", FPM, '        for name in segments:\n            path = path.child(name)\n        return path\n', '        return functools.reduce(lambda above, name: above.child(name), segments, path)\n', more=[(FPM, "import errno\n", "import errno\nimport functools\n")]),
     Silent("toSegments-as-a-partition-scanner", FTPM, '    for s in path.split("/"):\n        if s == "." or s == "":\n            continue\n        elif s == "..":\n            if segs:\n                segs.pop()\n            else:\n                raise InvalidPath(cwd, path)\n        elif "\\0" in s or "/" in s:\n            raise InvalidPath(cwd, path)\n        else:\n            segs.append(s)\n    return segs\n', '    rest = path\n    while rest is not None:\n        s, sep, tail = rest.partition("/")\n        rest = tail if sep else None\n        if s == "..":\n            if not segs:\n                raise InvalidPath(cwd, path)\n            segs.pop()\n        elif "\\0" in s:\n            raise InvalidPath(cwd, path)\n        elif s not in (".", ""):\n            segs.append(s)\n    return segs\n'),
+    Silent("coercion-helper-chosen-through-a-local", FPM, '        if isinstance(pattern, bytes):\n            return self._asBytesPath()\n        else:\n            return self._asTextPath()\n', '        spelling = self._asTextPath\n        if isinstance(pattern, bytes):\n            spelling = self._asBytesPath\n        return spelling()\n'),
 ]
